@@ -255,6 +255,71 @@ pub fn gen_value(src: &mut Src, depth_left: usize, cfg: &GenCfg) -> J {
     }
 }
 
+/// a long list of records (33 … 4 097: beyond 2^5, 2^6, 2^8, 2^10, 2^12) with optional members, rows that are
+/// no records, repeated values - and one query from the shapes everyday use consists of.  Shared by the checks
+/// that judge nodes (C01), order (C02) and paths (C03): whatever an implementation does differently "for long
+/// lists" - blocks, indexes, worker threads, fast paths keyed on the shape of the filter - must not show.
+pub fn gen_long_records(src: &mut Src) -> (J, String) {
+    gen_long_records_capped(src, usize::MAX)
+}
+
+/// the same with the length of the list limited to `cap` (for checks whose work per selected node is large)
+pub fn gen_long_records_capped(src: &mut Src, cap: usize) -> (J, String) {
+    let n = (*src.pick(&[33usize, 40, 65, 129, 257, 1025, 1500, 4097])).min(cap);
+    let names = ["ann", "bob", "eve", "al", ""];
+    let rows: Vec<J> = (0..n)
+        .map(|i| {
+            if src.chance(1, 16) {
+                return src.pick(&[J::Null, J::Int(7), J::Str("ann".into()), J::Arr(vec![J::Int(1)]), J::Obj(vec![])]).clone();
+            }
+            let mut m: Vec<(String, J)> = vec![("id".to_string(), J::Int((i % 50) as i64))];
+            if !src.chance(1, 5) {
+                m.push(("name".to_string(), if src.chance(1, 10) { J::Null } else { J::Str(src.pick(&names).to_string()) }));
+            }
+            if src.chance(1, 3) {
+                m.push(("tags".to_string(), J::Arr((0..src.below(3)).map(|t| J::Int(t as i64)).collect())));
+            }
+            if src.chance(1, 6) {
+                m.push(("n".to_string(), J::Float(0.5 * (i % 7) as f64)));
+            }
+            J::Obj(m).sorted()
+        })
+        .collect();
+    let under = src.bool();
+    let doc = if under { J::Obj(vec![("rows".to_string(), J::Arr(rows))]) } else { J::Arr(rows) };
+    let head = if under { "$.rows" } else { "$" };
+    let tail = match src.below(26) {
+        0 => "[*].id".to_string(),
+        1 => "[*].name".to_string(),
+        2 => "[*].tags[*]".to_string(),
+        3 => "[*].tags[:1]".to_string(),
+        4 => "[*]['id','name']".to_string(),
+        5 => "[?@.name == 'ann']".to_string(),
+        6 => "[?@.name != 'ann']".to_string(),
+        7 => "[?@.id < 7]".to_string(),
+        8 => "[?@.id >= 48 || @.id == 0]".to_string(),
+        9 => "[?@.id == 3 || @.id == 1 || @.id == 49 || @.id == 2 || @.id == 3.0]".to_string(),
+        10 => "[?@.name]".to_string(),
+        11 => "[?!@.name]".to_string(),
+        12 => "[?@.tags[0] == 0 && @.name]".to_string(),
+        13 => "[?match(@.name, 'a.*')]".to_string(),
+        14 => "[?search(@.name, 'n')].id".to_string(),
+        15 => "[?length(@.name) == 3]".to_string(),
+        16 => "[?count(@.tags[*]) > 1]".to_string(),
+        17 => "[?@.n > 1.0]".to_string(),
+        18 => "[::-1].id".to_string(),
+        19 => "[1::7]".to_string(),
+        20 => "[-40:].name".to_string(),
+        21 => "..id".to_string(),
+        22 => "..[?@ == 1]".to_string(),
+        23 => "[?@.id == @.tags[0] || @.id == @.tags[-1]]".to_string(),
+        24 => "[?@.id == 1][?@ == 'ann']".to_string(),
+        _ => "[?(@.name == 'bob')]".to_string(),
+    };
+    let text = if tail.starts_with("..") && !under { format!("${}", tail) } else { format!("{}{}", head, tail) };
+    (doc, text)
+}
+
 /// a document; the root is a container most of the time, a scalar sometimes
 pub fn gen_doc(src: &mut Src, cfg: &GenCfg) -> J {
     if src.chance(1, 25) {
